@@ -282,9 +282,55 @@ fn sde(w: &[&str]) -> String {
         "tup3n" => go!((u8, (i8, bool), u16), |v: (u8, (i8, bool), u16)| format!("[{},[{},{}],{}]", v.0, (v.1).0, (v.1).1 as u8, v.2)),
         "arr2" => go!([u8; 2], |v: [u8; 2]| format!("[{},{}]", v[0], v[1])),
         "arr2tup" => go!([(u8, u8); 2], |v: [(u8, u8); 2]| format!("[[{},{}],[{},{}]]", v[0].0, v[0].1, v[1].0, v[1].1)),
+        "any" => go!(AnyShape, |v: AnyShape| v.0),
         "opt_tup" => go!(Option<(u8, u8)>, |v: Option<(u8, u8)>| match v { None => "N".to_string(), Some(x) => format!("S([{},{}])", x.0, x.1) }),
         _ => "bad-op".into()
     }
+}
+
+/// A value deserialised through `deserialize_any` (the only place where the bridge's behaviour depends on `alloc`:
+/// indefinite-length strings are collected into an owned buffer, or refused).  The visitor needs no allocator in
+/// the library: it renders what it is shown (the harness binary itself may use std).
+struct AnyShape(String);
+
+struct AnyVisitor;
+
+impl<'de> serde::de::Visitor<'de> for AnyVisitor {
+    type Value = AnyShape;
+    fn expecting(&self, f: &mut core::fmt::Formatter) -> core::fmt::Result { f.write_str("anything") }
+    fn visit_bool<E>(self, v: bool) -> Result<AnyShape, E> { Ok(AnyShape(format!("b{}", v as u8))) }
+    fn visit_i64<E>(self, v: i64) -> Result<AnyShape, E> { Ok(AnyShape(format!("i{}", v))) }
+    fn visit_u64<E>(self, v: u64) -> Result<AnyShape, E> { Ok(AnyShape(format!("u{}", v))) }
+    fn visit_f32<E>(self, v: f32) -> Result<AnyShape, E> { Ok(AnyShape(format!("f{:08x}", v.to_bits()))) }
+    fn visit_f64<E>(self, v: f64) -> Result<AnyShape, E> { Ok(AnyShape(format!("d{:016x}", v.to_bits()))) }
+    fn visit_char<E>(self, v: char) -> Result<AnyShape, E> { Ok(AnyShape(format!("c{}", v as u32))) }
+    fn visit_str<E>(self, v: &str) -> Result<AnyShape, E> { Ok(AnyShape(format!("s{}", hex(v.as_bytes())))) }
+    fn visit_bytes<E>(self, v: &[u8]) -> Result<AnyShape, E> { Ok(AnyShape(format!("h{}", hex(v)))) }
+    fn visit_none<E>(self) -> Result<AnyShape, E> { Ok(AnyShape("N".into())) }
+    fn visit_some<D: serde::Deserializer<'de>>(self, d: D) -> Result<AnyShape, D::Error> {
+        d.deserialize_any(AnyVisitor).map(|x| AnyShape(format!("S({})", x.0)))
+    }
+    fn visit_unit<E>(self) -> Result<AnyShape, E> { Ok(AnyShape("U".into())) }
+    fn visit_seq<A: serde::de::SeqAccess<'de>>(self, mut a: A) -> Result<AnyShape, A::Error> {
+        let mut v = Vec::new();
+        while let Some(x) = a.next_element::<AnyShape>()? { v.push(x.0) }
+        Ok(AnyShape(format!("[{}]", v.join(","))))
+    }
+    fn visit_map<A: serde::de::MapAccess<'de>>(self, mut a: A) -> Result<AnyShape, A::Error> {
+        let mut v = Vec::new();
+        while let Some((k, x)) = a.next_entry::<AnyShape, AnyShape>()? { v.push(format!("{}:{}", k.0, x.0)) }
+        Ok(AnyShape(format!("{{{}}}", v.join(","))))
+    }
+}
+
+impl<'de> serde::Deserialize<'de> for AnyShape {
+    fn deserialize<D: serde::Deserializer<'de>>(d: D) -> Result<Self, D::Error> { d.deserialize_any(AnyVisitor) }
+}
+
+/// serialises through `Serializer::collect_str` (which needs `alloc`: documented)
+struct Shown(u64);
+impl serde::Serialize for Shown {
+    fn serialize<S: serde::Serializer>(&self, s: S) -> Result<S::Ok, S::Error> { s.collect_str(&self.0) }
 }
 
 /// `sser <type> <args…>`: the serde bridge's Serializer into a fixed buffer.
@@ -301,6 +347,7 @@ fn sser(w: &[&str]) -> String {
         "bool" => (a == "1").serialize(&mut ser).map(|_| ()),
         "char" => match char::from_u32(num!(u32)) { Some(c) => c.serialize(&mut ser).map(|_| ()), None => return "bad-op".into() },
         "unit" => ().serialize(&mut ser).map(|_| ()),
+        "shown" => Shown(num!(u64)).serialize(&mut ser).map(|_| ()),
         "opt_u8" => (if a == "N" { None } else { Some(num!(u8)) }).serialize(&mut ser).map(|_| ()),
         "str" => match unhex(a).and_then(|b| String::from_utf8(b).ok()) { Some(s) => s.as_str().serialize(&mut ser).map(|_| ()), None => return "bad-op".into() },
         "tup2" => { let v = num!(u16); ((v >> 8) as u8, v as u8).serialize(&mut ser).map(|_| ()) }
